@@ -14,9 +14,10 @@ open(f"{dst}/patch.diff", "w").write(diff)
 shutil.copy(f"{wt}/demo.py", f"{dst}/demo.py")
 t = run("/venv/bin/python -m pytest -q -p no:cacheprovider -n 8 2>&1 | tail -1", timeout=1200).stdout.strip()
 with_change = run("timeout 300 /venv/bin/python demo.py > /dev/null 2>&1; echo $?").stdout.strip()
-run("git stash -q")
+# (git stash is shared between worktrees of one repository: revert and re-apply the patch instead)
+run(f"git apply -R {dst}/patch.diff")
 without = run("timeout 300 /venv/bin/python demo.py > /dev/null 2>&1; echo $?").stdout.strip()
-run("git stash pop -q")
+run(f"git apply {dst}/patch.diff")
 run("rm -f tests/data/test_multiple.7z")
 meta = {"id": sid, "property": prop, "needs_to_manifest": needs, "files": sorted(set(l[6:] for l in diff.splitlines() if l.startswith("+++ b/"))),
         "confirmed": {"pytest_with_change": t, "demo_exit_with_change": with_change, "demo_exit_without_change": without,
